@@ -32,6 +32,7 @@ class TSock:
         self.log = []
         self.closed_at = None
         self.use_after_close = 0
+        self.send_accept = None  # None: everything | "one": one byte per call | "half": half of what is offered (at least 1)
 
     def __repr__(self):
         return "<TSock %d%s%s>" % (self.idx, " closed" if self.closed else "", " tls" if self.tls else "")
@@ -173,6 +174,10 @@ class TSock:
         data = bytes(data)
         if self.shut:
             raise BrokenPipeError(_errno.EPIPE, "Broken pipe")
+        if self.send_accept == "one":
+            data = data[:1]
+        elif self.send_accept == "half":
+            data = data[:max(1, len(data) // 2)]
         self.written.append((s.now, data))
         self.log.append((s.now, "w", len(data)))
         if self.peer is not None:
